@@ -327,6 +327,9 @@ func (c *fsClient) distinctIdx(st *State, a, b *Term) bool {
 	if c.factLt(st, a, b) == 1 || c.factLt(st, b, a) == 1 {
 		return true
 	}
+	if (a.Op == "bin" || b.Op == "bin") && (provedLt(st, a, b) || provedLt(st, b, a)) {
+		return true
+	}
 	if ia, ok := constInt(a); ok {
 		if ib, ok := constInt(b); ok {
 			return ia != ib
@@ -1344,8 +1347,9 @@ func (c *fsClient) checkContent(st *State, fr *Frame, pos token.Pos, list *Term,
 		if compaction {
 			first, last := g.flag("compactFirst"), g.flag("compactLast")
 			idx := e.Args[1]
-			pre := st.truth(tLt(idx, first)) == 1 && st.truth(tLt(idx, tConst("0", nil))) == 0
-			suf := st.truth(tLt(last, idx)) == 1 && st.truth(tLt(idx, mk("len", "", nil, cur))) == 1
+			zero := tConst("0", nil)
+			pre := provedLt(st, idx, first) && provedLe(st, zero, idx)
+			suf := provedLt(st, last, idx) && provedLt(st, idx, mk("len", "", types.Typ[types.Int], cur))
 			if !pre && !suf {
 				c.violate(st, "LIST-CONTENT", role+" / range partition", pos, "a kept table "+m.String()+" is not shown to lie in [0,first) or (last,len): the kept ranges and the compacted range do not partition the stack")
 			} else {
